@@ -290,6 +290,11 @@ func (g *Gen) evalBinary(env *Env, x *EBinary) Val {
 		}
 		return Val{T: bt, S: s}
 	}
+	if x.Op == "+" && a.sort(g) == "Str" && b.sort(g) == "Str" {
+		// string concatenation: the same uninterpreted function the code's + is translated to
+		f := g.uf("s.concat", []string{"Str", "Str"}, "Str")
+		return Val{T: types.Typ[types.String], S: fmt.Sprintf("(%s %s %s)", f, a.S, b.S)}
+	}
 	if a.C != nil && b.C != nil && a.Untyped && b.Untyped {
 		var c *big.Int
 		switch x.Op {
